@@ -139,11 +139,12 @@ class TensorIOPreparer:
         # Try to flatten the tensor without copying to achieve better chunking granularity.
         # This is only possible if the tensor satisfies the contiguity condition described in:
         # https://pytorch.org/docs/stable/generated/torch.Tensor.view.html#torch.Tensor.view
+        flattened = tensor_out
         try:
-            tensor_out = tensor_out.view(-1)
+            flattened = tensor_out.view(-1)
         except RuntimeError:
             pass
-        chunks = torch.chunk(tensor_out, chunks=num_chunks, dim=0)
+        chunks = torch.chunk(flattened, chunks=num_chunks, dim=0)
         element_size = dtype_to_element_size(string_to_dtype(entry.dtype))
 
         read_reqs = []
